@@ -252,6 +252,37 @@ def rule_atomic(R):
     pb, pcode = cm["process_received_packet"]
     R.ob("atomic/process", pb.name not in my and not pb.is_async,
          "process_received_packet (take packet, handle, report) contains no await point", where=pb.span)
+    # a consumed inbound PUBLISH is reported to the caller before the next await point: its length lives only in a local,
+    # the packet is already out of the reader and its acknowledgement queued -- a cancellation in between would
+    # acknowledge a message that is never delivered
+    n = 0
+    for name, (b, code) in sorted(cm.items()):
+        for c in outq.calls_to(f, code, pb):
+            if code.name == pcode.name:
+                continue
+            n += 1
+            # where this call's Some(length) is turned into the report to the caller
+            reports = []
+            for bb2, j2, s2 in code.assigns():
+                rv2 = s2["rv"]
+                if bb2 in code.reachable and "agg" in rv2 and (rv2["agg"].get("adt") or "").endswith("Progress") and rv2["agg"].get("variant") == "Inbound":
+                    t2 = code.rvalue_term(rv2)
+                    r2, n2 = chain(t2[5][0]) if t2[5] else (None, [])
+                    src = roles.ok_payload_source(r2) if n2[-2:] == ["@Some", "0"] or True else None
+                    if any(x[0] == "call" and x[1] == c.bb for x in walk(t2)):
+                        reports.append(bb2)
+            ok = bool(reports)
+            ys = set()
+            if ok:
+                fwd = code.reach([c.target], avoid=[c.bb])
+                bwd = code.coreach(reports, avoid=[c.bb])
+                ys = (fwd & bwd) & code.yield_blocks()
+                ok = not ys
+            R.ob("atomic/deliver/%s#%d" % (name, n), ok,
+                 "in Connection::%s an inbound PUBLISH taken out of the reader (process_received_packet -> Some(length)) is "
+                 "returned to the caller with no await point in between%s" % (name, "" if not ys else ": yield at %s" % code.line(sorted(ys)[0])),
+                 where=c.span)
+    R.floor("atomic/deliver", n, 1, "callers of process_received_packet")
 
 
 def rule_enq(R):
